@@ -120,6 +120,8 @@ def annotate_fn(item_text, name, c):
             edits.append((kw_at + im.end(), ' ' + ghost(lc['ghost_iter'] + ':') + ' '))
         edits.append((lbrace, ghost(lc['clauses']) + ' '))
     for rw in c.get('rewrites', []):
+        if rw.get('required') and not re.search(rw['find'], msk[m.end():]):
+            raise ScanError('rewrite anchor %r in %s: 0 matches' % (rw['find'], name))
         for mm in re.finditer(rw['find'], msk[m.end():]):
             a, b = m.end() + mm.start(), m.end() + mm.end()
             new = mm.expand(rw['to']) if rw.get('expand') else rw['to']
